@@ -82,6 +82,15 @@ def gen_one(rng, big):
     else:
         ops = [op_new(method, "1.1", "http", "a.test", "/", []),
                "proceed", "write_head #4096", "proceed", "stream %s" % hx(stream)]
+        if method != "CONNECT" and rng.random() < 0.4:
+            # any route into RecvResponse (lib.recv_context), optionally an interim 1xx response in front of the head
+            ctx, prefix, info = recv_context(rng)
+            _stats["method"]["ctx:" + info["kind"]] = _stats["method"].get("ctx:" + info["kind"], 0) + 1
+            pre = prefix + (rng.choice(INTERIM_HEADS[:3]) if rng.random() < 0.3 else b"")
+            stream = pre + stream
+            ops = ctx + ["stream %s" % hx(stream)]
+            if pre:
+                ops += ["arrive %s" % num(len(pre)), "try_response"] + (["try_response"] if prefix and len(pre) > len(prefix) else [])
         if rng.random() < 0.4 and status // 100 != 3:
             # the head arrives in two pieces (cut anywhere, often right after a field line): nothing is returned before it is complete
             ends = [k + 2 for k in range(len(head) - 2) if head[k:k + 2] == b"\r\n"][:-1]
@@ -194,9 +203,22 @@ def oracle_call(script, obs):
     return []
 
 
+def big_reads():
+    """Deterministic: bodies larger than 64 KiB / 1 MiB read in ONE call with a window and an output buffer that hold all of it."""
+    out = []
+    for n in (65537, 70000, 1048577):
+        head = render_response_head("1.1", 200, b"OK", [(b"Content-Length", str(n).encode())])
+        body = bytes(((i * 13 + 5) & 0xFF) for i in range(n))
+        stream = head + body + NEXT
+        ops = [op_new("GET"), "proceed", "write_head #4096", "proceed", "stream %s" % hx(stream), "arrive %s" % num(len(head)), "try_response", "q_can_proceed",
+               "proceed", "q_body_mode", "arrive %s" % num(n + len(NEXT)), "read %s" % num(n + 100), "q_can_proceed", "read #100", "proceed", "q_must_close"]
+        out.append({"ops": ops, "meta": {"n": n, "head": len(head), "body": body.hex(), "trailing": len(NEXT), "status": 200, "pre": 0}})
+    return out
+
+
 def generate(rng, tier, mult):
     count = (1200 if tier == "quick" else 10000) * mult
-    return [gen_one(rng, big=(i % 25 == 0)) for i in range(count)] + [gen_call(rng) for _ in range(count // 8)]
+    return big_reads() + [gen_one(rng, big=(i % 25 == 0)) for i in range(count)] + [gen_call(rng) for _ in range(count // 8)]
 
 
 def stats():
@@ -251,6 +273,8 @@ def oracle(script, obs):
                 break
             used = parse_response_obs(o)[0]
             consumed += used
+            if consumed <= meta.get("pre", 0):
+                continue                                  # an interim 1xx response in front of the response proper
             got_head = True
             if consumed != meta.get("pre", 0) + meta["head"]:
                 fails.append("op %d: %d bytes consumed up to the end of the head, expected %d" % (i, consumed, meta.get("pre", 0) + meta["head"]))
